@@ -114,6 +114,10 @@ def gen_cases(tier):
     for mode in (None, "most_specific"):
         for sup in (0, 1):
             yield {"kind": "csv", "features": [], "mode": mode, "transform": 0, "supplemental": sup}
+    # one statement file named by TWO data sources (read once per source by every command)
+    for tr in (0, 1):
+        yield {"kind": "rules", "features": [], "mode": None, "transform": tr, "supplemental": 0, "twice": 1}
+    yield {"kind": "csv", "features": [], "mode": None, "transform": 0, "supplemental": 0, "twice": 1}
 
 
 def make_budget(case, base, extra_row=None):
@@ -135,6 +139,8 @@ def make_budget(case, base, extra_row=None):
         y.append(f"rule_mode: {case['mode']}")
     card = '  - name: Card\n    file: data/s.csv\n    format: "{date:%m/%d/%Y},{description},{amount}"'
     orders = '  - name: orders\n    file: data/orders.csv\n    format: "{date:%Y-%m-%d},{item},{amount}"\n    columns:\n      description: "{item}"\n    supplemental: true'
+    if case.get("twice"):
+        card += '\n  - name: Card Again\n    file: ./data/s.csv\n    format: "{date:%m/%d/%Y},{description},{amount}"'
     y.append("data_sources:")
     if case["supplemental"] and case["transform"]:
         y += [orders, card]            # the supplemental source comes first
@@ -170,6 +176,8 @@ def check_case(case):
     make_budget(case, base)
     viol, evals = [], 0
     label = {k: case[k] for k in ("kind", "features", "mode", "transform", "supplemental")}
+    if case.get("twice"):
+        label["statement_named_by_two_sources"] = True
     j, r = up_json(base)
     evals += 1
     if j is None:
@@ -200,7 +208,7 @@ def check_case(case):
             for desc, cnt in (m.get("raw_descriptions") or {}).items():
                 up_unknown[desc] = cnt
     amounts = {}
-    for dt_, desc, a in STMT:
+    for dt_, desc, a in list(STMT) * (2 if case.get("twice") else 1):        # every source that names the file yields its rows
         amounts.setdefault(desc, []).append(float(a))
     want_d = {desc: (cnt, round(sum(abs(x) for x in amounts.get(desc, [])), 2)) for desc, cnt in up_unknown.items()}
     if d["exit"] == 0 and "No unknown transactions" in d["stdout"]:
